@@ -94,8 +94,13 @@ class Scheduler:
             return [(("Close", f"{who}:{obj.name}"), False)]
         if kind == "join_thread":
             q = obj
-            if not q.feeder_started or q.feeder_done:
+            if who not in q.buffers or who in q.feeder_done_by:
                 return [(("JoinThread", f"{who}:{q.name}"), False)]
+            return []
+        if kind == "exit":
+            # a process exits only after its queue feeders have flushed
+            if all(not q.buffers.get(who) for q in self.queues):
+                return [(("Exit", who), False)]
             return []
         if kind == "set":
             return [(("Set", who), False)]
@@ -117,11 +122,13 @@ class Scheduler:
     def enabled(self):
         acts = []
         for q in self.queues:
-            if q.buffer and len(q.pipe) < self.pipe_cap:
-                acts.append((("Flush", q.name), False, q))
-            elif q.closed and q.feeder_started and not q.buffer and not q.feeder_done:
-                # sentinel consumed: feeder thread finishes
-                acts.append((("FeederExit", q.name), False, q))
+            for owner in sorted(q.buffers):
+                buf = q.buffers[owner]
+                if buf and len(q.pipe) < self.pipe_cap:
+                    acts.append((("Flush", f"{q.name}@{owner}"), False, (q, owner)))
+                elif owner in q.closed_by and not buf and owner not in q.feeder_done_by:
+                    # sentinel consumed: that process's feeder thread finishes
+                    acts.append((("FeederExit", f"{q.name}@{owner}"), False, (q, owner)))
         for a in self.actors.values():
             for name, st in self._actor_actions(a):
                 acts.append((name, st, a))
@@ -178,11 +185,12 @@ class Scheduler:
             if isinstance(obj, Actor):
                 self.last_run[obj.name] = self.steps
             self.trace.append((tuple(n for n, _s, _o in acts), name))
-            if isinstance(obj, FakeQueue):
+            if isinstance(obj, tuple):
+                q, owner = obj
                 if name[0] == "Flush":
-                    obj.pipe.append(obj.buffer.pop(0))
+                    q.pipe.append(q.buffers[owner].pop(0))
                 else:
-                    obj.feeder_done = True
+                    q.feeder_done_by.add(owner)
                 continue
             self._apply(obj, name)
             return
@@ -194,8 +202,7 @@ class Scheduler:
         if kind == "put":
             if obj.maxsize > 0:
                 obj.sem -= 1
-            obj.feeder_started = True
-            obj.buffer.append(extra)
+            obj.buffers.setdefault(a.name, []).append(extra)
         elif kind == "get":
             if name[0] == "Recv":
                 res = ("item", obj.pipe.pop(0))
@@ -205,6 +212,7 @@ class Scheduler:
                 res = ("empty", None)
         elif kind == "close":
             obj.closed = True
+            obj.closed_by.add(a.name)
         elif kind == "set":
             obj.flag = True
         elif kind == "is_set":
@@ -268,6 +276,12 @@ class Scheduler:
                 code = 1
                 w.exc = e
                 self.log.append(("crash", w.name, repr(e)))
+            if code != -9 and any(w.name in q.buffers for q in self.queues) and getattr(w, "handback", None) is None:
+                # process exit joins the feeder threads of the queues it wrote to
+                try:
+                    self.sync("exit")
+                except SchedAbort:
+                    code = -9
             w.exited = True
             w.exitcode = code
             w.pending = None
@@ -297,11 +311,11 @@ class FakeQueue:
         self.sched = sched
         self.maxsize = maxsize
         self.sem = maxsize
-        self.buffer = []
+        self.buffers = {}          # per-process local buffers (each has its own feeder)
         self.pipe = []
         self.closed = False
-        self.feeder_started = False
-        self.feeder_done = False
+        self.closed_by = set()
+        self.feeder_done_by = set()
         self.name = f"q{len(sched.queues)}"
         sched.queues.append(self)
 
@@ -325,7 +339,7 @@ class FakeQueue:
         self.sched.sync("join_thread", self)
 
     def qsize(self):
-        return len(self.buffer) + len(self.pipe)
+        return sum(len(b) for b in self.buffers.values()) + len(self.pipe)
 
     def cancel_join_thread(self):
         pass
